@@ -266,6 +266,9 @@ pub fn run(tier: Tier, seed: u64) -> i32 {
         "excluded_known_finding_region".into(),
         json!({"what": "(grammar, shell) instances in which a state expects two within-word automata with equal word languages that complgen keeps apart (C09's known finding F-permuted-twin-words)", "count": obs::TWIN_REGION_EXCLUDED.load(std::sync::atomic::Ordering::Relaxed)}),
     );
+    if tier == Tier::Thorough && !run.failed() {
+        run.fuzz("libfuzzer", 1_500_000, 8, 600, fuzz_case);
+    }
     run.finish()
 }
 
@@ -284,5 +287,14 @@ pub fn replay(doc: &serde_json::Value) -> i32 {
         }
         Outcome::Broken(_) => 2,
         _ => 0,
+    }
+}
+
+/// entry point of the libFuzzer target: the first byte picks the profile
+pub fn fuzz_case(data: &[u8]) -> Outcome {
+    match data.split_first() {
+        Some((b, rest)) if b % 2 == 1 => case_dense(rest),
+        Some((_, rest)) => case_random(rest),
+        None => case_random(data),
     }
 }
